@@ -1,4 +1,5 @@
 import Amqp.Lemmas.Handshake
+import Amqp.Gen.ChanErr
 /-!
 # C09 — the connection handshake negotiates correctly for every broker offer
 
@@ -313,6 +314,11 @@ theorem skel_open : openSkel = expectedOpenSkel := by decide
 theorem skel_check : checkSkel = expectedCheckSkel := by decide
 /-- `_wait_for_connection_state`: check for errors, then the time-out test, then sleep -/
 theorem skel_wait : waitSkel = expectedWaitSkel := by decide
+
+/-- the model delivers a frame to `Channel0.on_frame` as one atomic step; for a refusal that is sound only if
+    the handler records the broker's reason *before* it publishes the CLOSED state (otherwise an opener
+    polling in between raises a code-less 'connection closed'): regenerated from `_close_connection` -/
+theorem refusal_reason_before_state : Gen.ChanErr.connReasonBeforeState = true := by decide
 
 /-! ## Non-vacuity -/
 
